@@ -10,8 +10,8 @@ for pid in sys.argv[1:]:
             prev.append("  - " + (m.get("summary") or "").replace("\n", " ")[:400])
         except Exception:
             pass
-    wt = f"/tmp/seed/{pid}r2"; out = f"/tmp/seed/out/{pid}r2"
+    R = os.environ.get("SEED_ROUND", "r2"); wt = f"/tmp/seed/{pid}{R}"; out = f"/tmp/seed/out/{pid}{R}"
     s = T.format(wt=wt, out=out, title=p['title'], statement=p['statement'], quant=p['quantifier']['text'], why=p['why_tests_cant'], files=", ".join(p['anchors']['files']), pid=pid)
     s += "\n\nIMPORTANT ADDITIONS FOR THIS ROUND.\n(1) The description of the existing tests above may be slightly out of date; the library has received several bug-fix commits recently (see `git log` in your worktree) and the property currently HOLDS in your worktree; base your work on the code as it is there.\n(2) Other engineers have ALREADY produced the following breaking changes for this property. Yours must be DIFFERENT from all of them in location and in mechanism (do not touch the same statement, do not re-create the same idea elsewhere), and should be subtler - prefer changes that only matter for rare configurations, multi-step histories, particular interleavings, or that need two cooperating sites:\n" + "\n".join(prev) + "\n(3) Never use `git stash`; never kill processes by a generic pattern (other engineers run the same commands in sibling directories) - kill only PIDs you started.\n"
-    open(f"/tmp/seed/prompt_{pid}r2.txt", "w").write(s)
+    open(f"/tmp/seed/prompt_{pid}{R}.txt", "w").write(s)
     print(pid, len(s), len(prev))
